@@ -316,3 +316,72 @@ class ErrorsImplEuler(_Errors):
 @register
 class ErrorsTrapezoidal(_Errors):
     name, func = 'fn:errors_trapezoidal', 'errors_trapezoidal'
+
+
+@register
+class AdaptiveStepSize(_OneStep):
+    """adaptive_step_size: (solution, time_steps); the number of accepted steps is data dependent - the contract states the
+    structure: equally long lists, head identity, valid fresh pairwise distinct states, inputs never written."""
+    name, func = 'fn:adaptive_step_size', 'adaptive_step_size'
+    KEY = 'while time < time_end and closeness_pre > closeness_min and (step_size > step_size_min)'
+    loop_ordinals = {0: KEY}
+    list_kinds = {'solution': 'ttref', 'time_steps': 'num'}
+
+    def instances(self):
+        return [{'normalize': nz, 'second_method': m} for nz in (0, 1, 2) for m in ('two_step_Euler', 'trapezoidal_rule')]
+
+    def quick_instances(self):
+        return [i for i in self.instances() if i['normalize'] == 1]
+
+    def defaults(self):
+        d = {k: SNum(k) for k in ('step_size_first', 'error_tol', 'closeness_tol', 'step_size_min', 'step_size_max', 'closeness_min', 'factor_max', 'factor_safe')}
+        d.update({'repeats': 1, 'solver': 'solve', 'second_method': 'two_step_Euler', 'normalize': 1, 'progress': True})
+        return d
+
+    def setup(self, ex, state, inst):
+        m0 = ex.ctx.mark0
+        op = mk_tt(state, 'operator', m0)
+        init = mk_tt(state, 'initial_value', m0, order=op.order)
+        g = mk_tt(state, 'initial_guess', m0, order=op.order)
+        p = {'operator': op, 'initial_value': init, 'initial_guess': g, 'time_end': SNum('time_end'), 'repeats': fresh('repeats'), 'solver': 'solve',
+             'second_method': inst['second_method'], 'normalize': inst['normalize'], 'progress': False}
+        for k in ('step_size_first', 'error_tol', 'closeness_tol', 'step_size_min', 'step_size_max', 'closeness_min', 'factor_max', 'factor_safe'):
+            p[k] = SNum(k)
+        return p
+
+    def requires(self, S):
+        yield from _OneStep.requires(self, S)
+        op, g = S.a['operator'], S.a['initial_guess']
+        d = zi(op.order)
+        yield 'guess', z3.And(zi(g.order) == d, same_ints(g.row_dims, op.col_dims, d), FA(0, d, lambda j: lst_get(g.col_dims, j) == 1), boundary_one(g))
+        yield 'repeats>=0', zi(S.a['repeats']) >= 0
+
+    def ensures(self, S, res):
+        ok = isinstance(res, tuple) and len(res) == 2 and isinstance(res[0], SList) and res[0].kind == 'ttref' and isinstance(res[1], SList)
+        yield 'returns-(solution,time_steps)', ok
+        if ok:
+            sol, ts = res
+            n = zi(sol.len_term())
+            yield 'one-time-point-per-state', zi(ts.len_term()) == n
+            yield from (('trajectory:' + a, b) for a, b in trajectory(self, sol, n, S.o['initial_value'], S.mark0, None))
+            yield 'time-list-fresh', ts.ref >= S.mark0
+
+    def canary(self, S, res):
+        return zi(res[0].len_term()) == 0 if isinstance(res, tuple) else None
+
+    def invariant(self, key, inst):
+        me = self
+        if key != self.KEY:
+            return None
+
+        def inv(V, _i, _k):
+            sol, ts = V['solution'], V['time_steps']
+            yield from trajectory(me, sol, zi(sol.len_term()), V.old('initial_value'), V.mark0, V.state.mark)
+            yield 'time_steps', z3.And(zi(ts.len_term()) == zi(sol.len_term()), ts.ref >= V.mark0, ts.ref != sol.ref)
+            # the time list is allocated before any produced state: appending to it cannot touch a stored state
+            yield 'states-allocated-after-time-list', FA(1, zi(sol.len_term()), lambda j: heap.BOT(heap.ref_at(sol, j)) > ts.ref)
+            t, op = V['t_tmp'], V.old('operator')
+            d = zi(op.order)
+            from vt.e1.contract import valid
+            yield 'guess', z3.And(zi(t.order) == d, valid(t), same_ints(t.row_dims, op.col_dims, d), FA(0, d, lambda j: lst_get(t.col_dims, j) == 1), boundary_one(t))
+        return inv
